@@ -126,4 +126,40 @@ def chkBld (a : List String) : String :=
     | _, _, _, _ => "bad-op"
   | _, _ => "na"
 
+def parseWrites (tok : String) : Option (List Bytes) :=
+  if tok == "-" then some [] else (tok.splitOn "+").mapM fromHex
+
+/-- `chk exp <op> | <impl obs>`: Spec.Exp.sendVerdict on the implementation's observation -/
+def chkExp (t : ExpSpec.Tracker) (a : List String) : ExpSpec.Tracker × String :=
+  let (op, obs) := splitBar a
+  match op with
+  | ["new", dom] =>
+    match dom.toNat? with
+    | some d => ({ dom := d }, "holds")
+    | none => (t, "bad-op")
+  | ["seq", n] =>
+    match n.toNat? with
+    | some n => ({ t with seq := n }, "holds")
+    | none => (t, "bad-op")
+  | ["getseq"] => (t, "na")
+  | ["tids"] => (t, "na")
+  | ["send", _path, ty, setid, recs] =>
+    match parseSetType ty, setid.toNat?, parseRecsDesc recs with
+    | some ty, some sid, some rs =>
+      let o : ExpSpec.Obs :=
+        match obs with
+        | ["ok", n, w, tk] =>
+          match n.toNat?, parseWrites w with
+          | some n, some ws => .ok n ws (tk == "timeok")
+          | _, _ => .other
+        | ["err", w] =>
+          match parseWrites w with
+          | some ws => .err ws
+          | none => .other
+        | ["builderr"] => .builderr
+        | _ => .other
+      ExpSpec.sendVerdict t { ty := ty, setId := sid, recs := rs } o
+    | _, _, _ => (t, "bad-op")
+  | _ => (t, "na")
+
 end Driver
